@@ -1,0 +1,101 @@
+// SPDX-FileCopyrightText: 2026 The Pion community <https://pion.ly>
+// SPDX-License-Identifier: MIT
+
+//go:build verif
+
+package oggreader
+
+// Contracts for the contract-based verification in /verif (build tag verif); comments only.
+// C37: every function below is checked for the absence of run-time panics (index,
+// slice, nil, make, division) for every payload / stream content, and the page
+// reader for progress on every successful call.
+
+// ---- stream model (assumed contract on io), as in pkg/media/ivfreader ----
+//@ func io.ReadFull
+//@ trusted
+//@ requires r != nil
+//@ ghost rdpos += n
+//@ ensures 0 <= n && n <= len(buf) && ((err == nil) == (n == len(buf)))
+//@ ensures ufint("streamlen") >= 0 && old(ghost(rdpos)) <= uint64(ufint("streamlen"))
+//@ ensures (err == nil) == (old(ghost(rdpos)) + uint64(len(buf)) <= uint64(ufint("streamlen")))
+//@ ensures err == nil ==> (forall i int :: 0 <= i && i < len(buf) ==> buf[i] == ufbyte("stream", int(old(ghost(rdpos))) + i))
+//@ modifies elems(buf)
+
+//@ field OggReader.checksumTable props C37 writers NewWithOptions, newWith
+//@ field OggReader.stream props C37 writers NewWithOptions, newWith, (*OggReader).ResetReader
+
+//@ func generateChecksumTable
+//@ props C37 C33
+//@ ensures result != nil
+//@ modifies nothing
+
+//@ func (*OggReader).ParseNextPage
+//@ props C37
+//@ requires o != nil && o.stream != nil && o.checksumTable != nil
+//@ requires ghost(rdpos) < 1<<40 && ufint("streamlen") < 1<<40
+//@ ensures err == nil ==> ret1 != nil && ghost(rdpos) >= old(ghost(rdpos)) + 27
+//@ ensures err == nil ==> ghost(rdpos) == old(ghost(rdpos)) + 27 + uint64(ret1.segmentsCount) + uint64(len(ret0))
+//@ ensures err == nil ==> ret1.segmentsCount == ufbyte("stream", int(old(ghost(rdpos))) + 26) && ret1.headerType == ufbyte("stream", int(old(ghost(rdpos))) + 5)
+//@ ensures err == nil ==> len(ret0) <= 255 * 255
+//@ loop 0 invariant 0 <= payloadSize && payloadSize <= 255 * (rangeindex + 1) && rangeindex < len(sizeBuffer) && len(sizeBuffer) <= 255
+
+//@ func opusPayloadSignature
+//@ props C37
+//@ modifies nothing
+
+//@ func validateOpusPageHeader
+//@ props C37
+//@ requires pageHeader != nil
+//@ ensures err == nil ==> len(payload) >= 19
+//@ modifies nothing
+
+//@ func parseBasicHeaderFields
+//@ props C37
+//@ requires len(payload) >= 19
+//@ ensures result != nil && fresh(result) && result.ChannelMap == payload[18] && result.Channels == payload[9]
+//@ modifies nothing
+
+//@ func validatePayloadLength
+//@ props C37
+//@ ensures (err == nil) == (len(payload) == expectedLen)
+//@ modifies nothing
+
+//@ func parseExtendedChannelMapping
+//@ props C37
+//@ requires header != nil && len(payload) >= 19
+
+//@ func parseChannelMapping
+//@ props C37
+//@ requires header != nil && len(payload) >= 19
+
+//@ func ParseOpusHead
+//@ props C37
+
+//@ func (*OggReader).readOpusHeader
+//@ props C37
+//@ requires o != nil && o.stream != nil && o.checksumTable != nil
+//@ requires ghost(rdpos) < 1<<40 && ufint("streamlen") < 1<<40
+
+//@ func validateOpusTagsHeader
+//@ props C37
+//@ requires minHeaderLen >= 8
+//@ ensures err == nil ==> len(payload) >= minHeaderLen
+//@ modifies nothing
+
+//@ func parseVendorString
+//@ props C37
+//@ requires headerMagicLen == 8 && u32Size == 4 && minHeaderLen == 16 && len(payload) >= 16
+//@ ensures err == nil ==> 12 <= ret1 && ret1 + 4 <= len(payload)
+
+//@ func parseSingleUserComment
+//@ props C37
+//@ requires u32Size == 4 && 0 <= pos && pos <= len(payload)
+//@ ensures err == nil ==> pos + 4 <= ret1 && ret1 <= len(payload)
+
+//@ func parseUserComments
+//@ props C37
+//@ requires u32Size == 4 && 0 <= vendorEnd && vendorEnd <= len(payload) - 4
+//@ loop 0 invariant 0 <= pos && pos <= len(payload)
+
+//@ func ParseOpusTags
+//@ props C37
